@@ -3,13 +3,12 @@
 # Like seedtest.sh but WITHOUT touching /repo: the patch is applied in a scratch worktree and the check imports vopy from there
 # (PYTHONPATH first).  For use while a background run is using /repo.  Evidence written by this run is NOT for committing.
 set -u
+export VERIF_EVIDENCE_DIR=/var/tmp/vopy-verif-seed-evidence     # runs against a seeded change never replace real evidence
 S=/verif/seeded/$1; ID=$2; TIER=${3:-quick}; WT=/tmp/wt/_seedtest_$1_$ID
 git -C /repo worktree add --detach "$WT" HEAD -q || exit 2
 git -C "$WT" apply "$S/patch.diff" || { echo "patch does not apply"; git -C /repo worktree remove --force "$WT"; exit 2; }
-cp /verif/evidence/$ID.json /tmp/_ev_$ID.$$ 2>/dev/null
 cd /verif && PYTHONPATH="$WT" ./check "$ID" "$TIER" > /tmp/seedtest.$1.$ID.log 2>&1
 rc=$?
-cp /tmp/_ev_$ID.$$ /verif/evidence/$ID.json 2>/dev/null; rm -f /tmp/_ev_$ID.$$
 grep -E "^(VIOLATION|MACHINERY)" /tmp/seedtest.$1.$ID.log | head -3
 tail -1 /tmp/seedtest.$1.$ID.log | cut -c1-200
 echo "seed=$1 check=$ID tier=$TIER exit=$rc (worktree)"
